@@ -25,7 +25,7 @@ TRUSTED = ["modelled not verified: SQLite/sqlx, CBOR header length, tie-break am
 RULE = ("quick: 120 random cases, each an operation table (8-16 operations over 3 authors, seq 0..4 plus uint-width boundaries, claimed payload sizes "
         "0/small/2^31/2^32-1, forks) and 10-16 commands (insert under one of 3 logs / delete / delete payload / prune), every command followed by "
         "latest, latest_tx, heights (empty list, singletons, all, duplicates, unknown log), entries and size on boundary ranges for the touched and one "
-        "other log; thorough: 1500 cases with up to 40 commands. non-trivial = some insert ignored, some row deleted or pruned, some entries answer "
+        "other log; thorough: 1000 cases with up to 30 commands. non-trivial = some insert ignored, some row deleted or pruned, some entries answer "
         "with >= 2 rows and some heights answer with >= 2 logs")
 
 U32 = 4294967295
@@ -133,8 +133,8 @@ def gen(tier, rng):
         for _ in range(120):
             yield _case(rng, rng.randint(8, 16), rng.randint(10, 16))
     else:
-        for _ in range(1500):
-            yield _case(rng, rng.randint(6, 24), rng.randint(10, 40))
+        for _ in range(1000):
+            yield _case(rng, rng.randint(6, 24), rng.randint(10, 30))
 
 
 def _o(v):
